@@ -163,7 +163,7 @@ fn a5_async_write_refuses_large_size() {
 
 // A6 (unit asyncvfs, [C20.vfs.getattr.result][C20.vfs.getattr.ids]): GETATTR of a pseudo-fs inode (here ROOT_ID with nothing mounted on
 //     "/") on a Vfs with an id mapping (internal 0 -> external 1000, range 65536).  sync Vfs::getattr translates the owner ids of
-//     pseudo-fs attributes (fix d7a7ab7); Vfs::async_getattr returns them untranslated.
+//     pseudo-fs attributes (fix d7a7ab7); Vfs::async_getattr returned them untranslated (st_uid 0 instead of 1000).  Fails on the defect.
 #[test]
 fn a6_vfs_async_getattr_of_a_pseudo_inode_keeps_internal_owner_ids() {
     use fuse_backend_rs::api::{Vfs, VfsOptions};
@@ -172,5 +172,5 @@ fn a6_vfs_async_getattr_of_a_pseudo_inode_keeps_internal_owner_ids() {
     let (s, _) = vfs.getattr(&ctx, 1u64.into(), None).unwrap();
     let (a, _) = fuse_backend_rs::async_runtime::block_on(async { vfs.async_getattr(&ctx, 1u64.into(), None).await }).unwrap();
     assert_eq!(s.st_uid, 1000, "sync: owner id of the pseudo root seen by the client");
-    assert_eq!(a.st_uid, 0, "async: internal owner id leaks to the client");
+    assert_eq!((s.st_uid, s.st_gid, s.st_ino), (a.st_uid, a.st_gid, a.st_ino), "attributes differ (sync / async)");
 }
